@@ -242,3 +242,9 @@ def scale_sizes(ctx, res=None, default=(9,), thorough_default=(9, 33)):
         if big:
             res.note(f"size constants beyond the cap of {SIZE_CAP} are named by the tree but not explored: " + ", ".join(f"{c} at {found[c]}" for c in big))
     return out
+
+
+def warned(out):
+    """did the call end by raising a Warning category (possible only in the warnings-as-errors pass)?"""
+    exc = getattr(out, "exc", None)
+    return out.kind == "raise" and exc is not None and any(c.name == "Warning" for c in exc.cls.mro)
